@@ -103,6 +103,48 @@ func runC09(c *Ctx) {
 	c09TxnByTxn(c, ge)
 	c09DeepCopies(c, ge)
 	c09DecodedOwnsMemory(c)
+	c09PerIterationFresh(c, ge)
+}
+
+// c09PerIterationFresh: inside a copy function, a pointer stored into a per-element slot within a loop must
+// point to memory allocated in that iteration. A variable hoisted out of the loop makes every element of the copy
+// point at the same object (the last one written).
+func c09PerIterationFresh(c *Ctx, ge *GuardEngine) {
+	n := 0
+	for _, fn := range SortedFuncs(c.P.AllFuncs()) {
+		if !c.P.InModule(fn) || fn.Synthetic != "" || fn.Pkg == nil || relPkg(fn.Pkg.Pkg) != "types" {
+			continue
+		}
+		if fn.Name() != "DeepCopy" && fn.Name() != "Copy" && fn.Name() != "deepCopy" {
+			continue
+		}
+		fi := ge.info(fn)
+		for _, b := range fn.Blocks {
+			for _, in := range b.Instrs {
+				// &local converted to an interface or stored as a pointer
+				var al *ssa.Alloc
+				switch x := in.(type) {
+				case *ssa.MakeInterface:
+					al, _ = x.X.(*ssa.Alloc)
+				case *ssa.Store:
+					al, _ = x.Val.(*ssa.Alloc)
+				}
+				if al == nil || len(fi.loopsOf[b]) == 0 {
+					continue
+				}
+				n++
+				inside := true
+				for _, h := range fi.loopsOf[b] {
+					if !fi.loopBody[h][al.Block()] {
+						inside = false
+					}
+				}
+				name := al.Comment
+				c.Check(inside, "copy-is-deep", FuncName(fn)+":per-iteration:"+name, c.P.Pos(in.Pos()), ifElse(inside, "the pointed-to copy "+name+" is allocated in the iteration that stores it", "every iteration stores a pointer to the same variable "+name+" declared outside the loop: all copied elements end up pointing at the last one"))
+			}
+		}
+	}
+	c.Check(n >= 2, "copy-is-deep", "per-iteration:inventory", "", fmt.Sprintf("%d pointer-to-local stores inside copy loops examined", n))
 }
 
 // decodedSharedOK: decoders that by design store a sub-slice of memory they do not own.
